@@ -888,6 +888,8 @@ impl<'t, 'd, 'e> Presenter<'t, 'd, 'e> {
 				}
 				Some(match self.tape.below(3) {
 					0 => (P::Bytes(wrong), "fixed-wrong-length/bytes".into()),
+					// (for half of the values: a str with exactly `size` characters but one byte more)
+					1 if *size >= 1 && b.first().map_or(false, |x| x % 2 == 1) => (P::Str(std::iter::once('\u{e9}').chain(std::iter::repeat('a').take(*size - 1)).collect()), "fixed-wrong-length/str-char-count-equals-size".into()),
 					1 => (P::Str(std::iter::repeat('a').take(wrong.len()).collect()), "fixed-wrong-length/str".into()),
 					_ => {
 						self.needs_slow_seq_bytes = true;
